@@ -112,6 +112,7 @@ pub fn gen_writer_plan(rng: &mut Rng) -> WriterPlan {
     zero_at: if rng.chance(60) { Some(rng.below(20)) } else { None },
     transient: rng.chance(400),
     vectored: rng.chance(300),
+    reenter: rng.chance(100),
   }
 }
 
@@ -640,6 +641,7 @@ pub fn gen_scenario(rng: &mut Rng) -> Scenario {
   }
   let ascii = rng.chance(700);
   let mut cfg = GenCfg::small(ascii);
+  cfg.allow_estimate = true;
   let deep = crate::rng::deep();
   if deep {
     cfg.max_nodes = 10;
